@@ -12,6 +12,7 @@ import (
 	"path/filepath"
 	"regexp"
 	"strings"
+	"sync"
 	"testing"
 	"time"
 
@@ -46,6 +47,10 @@ type C07Case struct {
 	Reqs   []C07Req   `json:"reqs"`
 	Tmpl   []TmplStep `json:"tmpl"`
 	NIDs   int        `json:"n_ids"` // extra scripts requested for ID freshness
+	// Workers > 1: the freshness scripts are requested by that many clients at
+	// once, each with a Host of its own, so scripts built concurrently must
+	// not share an ID, an address or a buffer.
+	Workers int `json:"workers,omitempty"`
 }
 
 var (
@@ -225,13 +230,47 @@ func runC07(t testing.TB, c C07Case) (key, what string, classes map[string]int) 
 			classes["executed"]++
 		}
 	}
-	for i := 0; i < c.NIDs; i++ {
-		res, err := s.Request([]byte("GET /c HTTP/1.1\r\nHost: h.example\r\nConnection: close\r\n\r\n"), "GET", "")
-		if err != nil {
-			return "HARNESS", err.Error(), classes
+	if c.Workers > 1 && c.NIDs > 0 {
+		type got struct {
+			host string
+			body []byte
+			err  error
 		}
-		if k, w, _ := checkScript(fmt.Sprintf("freshness request %d", i), res.Body, "h.example"); k != "" {
-			return k, w, classes
+		out := make([]got, c.NIDs)
+		var wg sync.WaitGroup
+		for w := 0; w < c.Workers; w++ {
+			wg.Add(1)
+			go func(w int) {
+				defer wg.Done()
+				for i := w; i < c.NIDs; i += c.Workers {
+					host := fmt.Sprintf("h%d.example", w)
+					res, err := s.Request([]byte("GET /c HTTP/1.1\r\nHost: "+host+"\r\nConnection: close\r\n\r\n"), "GET", "")
+					out[i] = got{host: host, err: err}
+					if err == nil {
+						out[i].body = res.Body
+					}
+				}
+			}(w)
+		}
+		wg.Wait()
+		for i, g := range out {
+			if g.err != nil {
+				return "HARNESS", g.err.Error(), classes
+			}
+			if k, w, _ := checkScript(fmt.Sprintf("concurrent freshness request %d (Host %s)", i, g.host), g.body, g.host); k != "" {
+				return k, w, classes
+			}
+		}
+		classes["scripts-requested-concurrently"]++
+	} else {
+		for i := 0; i < c.NIDs; i++ {
+			res, err := s.Request([]byte("GET /c HTTP/1.1\r\nHost: h.example\r\nConnection: close\r\n\r\n"), "GET", "")
+			if err != nil {
+				return "HARNESS", err.Error(), classes
+			}
+			if k, w, _ := checkScript(fmt.Sprintf("freshness request %d", i), res.Body, "h.example"); k != "" {
+				return k, w, classes
+			}
 		}
 	}
 	if c.NIDs > 0 {
@@ -422,6 +461,7 @@ func genC07() *rapid.Generator[C07Case] {
 		}
 		if rapid.IntRange(0, 3).Draw(t, "ids") == 0 {
 			c.NIDs = rapid.SampledFrom([]int{1, 5, 50, 200}).Draw(t, "nids")
+			c.Workers = rapid.SampledFrom([]int{0, 0, 4, 16}).Draw(t, "workers")
 		}
 		return c
 	})
